@@ -18,7 +18,8 @@ BUDGET = {
     "thorough": {"runs": 200_000, "wall": 1500, "chunk": 100, "minimise": 200},
 }
 REQUIRED_PROBES = {"quick": ("cut_in_length", "cut_in_header", "cut_in_body", "multi_frame_segment",
-                             "single_byte_segments", "outbound_multi_packet", "ends_with_separate"),
+                             "single_byte_segments", "outbound_multi_packet", "ends_with_separate", "prologue_cut_in_length",
+                             "prologue_cut_in_header", "prologue_cut_in_body"),
                    "thorough": ("cut_in_length", "cut_in_header", "cut_in_body", "multi_frame_segment",
                                 "single_byte_segments", "outbound_multi_packet", "body_ge_64k")}
 EVIDENCE = {
@@ -50,6 +51,8 @@ SCHEDS = [
     {"policy": "pct", "d": 5, "horizon": 8000, "preempt": "line"},
     {"policy": "rr", "q": 2, "preempt": "line"},
     {"policy": "random", "p": 0.2, "preempt": "sync"},
+    {"policy": "random", "p": 0.5, "preempt": "sync"},
+    {"policy": "pct", "d": 2, "horizon": 150, "preempt": "sync"},
 ]
 
 
@@ -133,6 +136,11 @@ def gen_plan(rng, tier, index):
     if any(o[2] > 60000 for o in outbound) or any(f[0] == "data" and f[6][1] > 60000 for f in frames):
         plan["limits"] = {"max_steps": 6_000_000, "max_vtime": 3000.0}
     plan["latency"] = rng.choice([0.0, 0.0005, 0.01])
+    if rng.random() < 0.25:
+        # an earlier connection of the same endpoint ended inside a frame: its bytes / framing state must not leak into
+        # the stream of this one
+        plan["prologue"] = {"body": rng.choice([0, 1, 10, 300]), "cut": rng.choice([1, 3, 4, 5, 13, 14, 15, 200]),
+                            "how": rng.choice(["fin", "rst"]), "complete_first": rng.random() < 0.5}
     plan["device_id"] = rng.choice([0, 1, 0x7FFF, 300])
     sched = dict(rng.choice(SCHEDS))
     sched["seed"] = rng.getrandbits(48)
@@ -186,23 +194,62 @@ def run(sim, plan):
     ep = hsmsenv.Endpoint(sim, active, device_id=plan["device_id"], t6=5, t5=1)
     ep.proto.send_packet_size = plan["packet_size"]
     ep.proto.enable()
-    if active:
-        if not sim.wait_until(lambda: listener.peers, 5):
-            sim.inconclusive("active endpoint did not connect")
-        peer = listener.peers[0]
-        if not sim.wait_until(lambda: peer.frames_of(rc.SELECT_REQ), 5):
-            sim.inconclusive("no Select.req from the active endpoint")
-        peer.send(rc.control(rc.SELECT_RSP, peer.frames_of(rc.SELECT_REQ)[0].system))
-    else:
-        sim.advance(0.6)
-        peer = hsmsenv.connect_peer(sim)
-        if peer is None:
-            sim.inconclusive("passive endpoint refused the connection")
-        # session set-up is C05's subject: wait for the accept to finish before selecting
-        sim.wait_until(lambda: ep.connected_n == 1, 5)
-        peer.send(rc.control(rc.SELECT_REQ, 0xFEED))
-    if not sim.wait_until(lambda: ep.state == "CONNECTED_SELECTED", 5):
-        sim.inconclusive(f"endpoint did not reach SELECTED ({ep.state})")
+
+    def bring_up(idx):
+        if active:
+            if not sim.wait_until(lambda: len(listener.peers) > idx, 8):
+                sim.inconclusive("active endpoint did not connect")
+            peer = listener.peers[idx]
+            if not sim.wait_until(lambda: peer.frames_of(rc.SELECT_REQ), 5):
+                sim.inconclusive("no Select.req from the active endpoint")
+            peer.send(rc.control(rc.SELECT_RSP, peer.frames_of(rc.SELECT_REQ)[0].system))
+        else:
+            peer = None
+            for _ in range(8):
+                sim.advance(0.6)
+                peer = hsmsenv.connect_peer(sim)
+                if peer is not None:
+                    break
+            if peer is None:
+                sim.inconclusive("passive endpoint refused the connection")
+            # session set-up is C05's subject: wait for the accept to finish before selecting
+            sim.wait_until(lambda: ep.connected_n == idx + 1, 5)
+            peer.send(rc.control(rc.SELECT_REQ, 0xFEED + idx))
+        if not sim.wait_until(lambda: ep.state == "CONNECTED_SELECTED", 5):
+            if idx and ep.state == "CONNECTED_NOT_SELECTED":
+                # the previous connection ended inside a frame and the select procedure of this one is not understood
+                sim.violation("C04.R2", f"after a connection that ended {pro['cut']} bytes into a frame the select "
+                              f"procedure of the next connection did not complete (state {ep.state}): its frames are "
+                              "not parsed from their first byte", sig="C04.R2|prologue-leak")
+            sim.inconclusive(f"endpoint did not reach SELECTED ({ep.state})")
+        return peer
+
+    pro = plan.get("prologue")
+    peer = bring_up(0)
+    prologue_delivered = 0
+    if pro:
+        # previous connection: optionally one complete message, then the first `cut` bytes of another one, then the end
+        if pro["complete_first"]:
+            peer.send(rc.data(1, 1, False, 0x0BAD0001, b""))
+            prologue_delivered = 1
+        raw = rc.data(7, 3, False, 0x0BAD0002, (bytes(range(256)) * 2)[:pro["body"]]).encode()
+        cut = min(pro["cut"], len(raw) - 1)
+        peer.send_bytes(raw[:cut])
+        sim.advance(0.3)
+        if pro["how"] == "fin":
+            peer.close()
+        else:
+            peer.reset()
+        sim.probe("prologue_cut_in_length" if cut < 4 else "prologue_cut_in_header" if cut < 14 else
+                  "prologue_cut_in_body")
+        if not sim.wait_until(lambda: ep.state == "NOT_CONNECTED", 10):
+            sim.inconclusive("endpoint did not notice the end of the previous connection (C09's subject)")
+        if len(ep.received) != prologue_delivered:
+            sim.violation("C04.R2", f"previous connection: {prologue_delivered} complete message(s) and {cut} bytes of an "
+                          f"incomplete one were sent, {len(ep.received)} messages were delivered",
+                          sig="C04.R2|prologue-delivery")
+        peer = bring_up(1)
+        del ep.received[:]
     n_out0 = len(peer.frames)
 
     # ---- outbound traffic from application threads -------------------------------------------
